@@ -103,51 +103,21 @@ theorem sweep_only_expired (c : Cache) (now : Nat) (keys : List (Nat × Nat)) (a
   | cons p rest ih =>
     obtain ⟨k, cf⟩ := p
     simp only [Cache.sweepKeys]
-    cases hx : c.store.expiration k with
-    | none => exact ih c acc he
-    | some t =>
-      simp only
-      split
-      · rename_i hdue
-        -- the swept key is not j
-        have hkj : k ≠ j := by
-          intro hkj; subst hkj
-          simp only [Store.expiration, he, Option.map_some, Option.some.injEq] at hx
-          subst hx
-          simp only [Time.isZero, Time.isExpired, Bool.and_eq_true, Bool.not_eq_true',
-            beq_eq_false_iff_ne, ne_eq, decide_eq_true_eq] at hdue
-          rcases hlive with h0 | h1 <;> omega
-        have hstore : ∀ (c1 : Cache), c1.store = c.store →
-            ((c1.store.tryRemove k cf).1.items.get j = some e) := by
-          intro c1 h1
-          rw [h1]
-          unfold Store.tryRemove
-          cases c.store.items.get k with
-          | none => simpa using he
-          | some e' =>
-            simp only
-            split
-            · simpa using he
-            · simp [KMap.get_erase, Ne.symm hkj, he]
-        -- lfu / metrics changes do not touch the store
-        have hmet : ∀ (c1 : Cache) (f : Metrics → Metrics), (c1.met f).store = c1.store := by
-          intro c1 f; unfold Cache.met; split <;> rfl
-        cases hr : (policyRemove c.lfu k) with
-        | mk l' evs =>
-          simp only
-          have hs1 : (({ c with lfu := l' } : Cache).met fun m => m.applyEvs evs).store = c.store := by
-            rw [hmet]
-          cases htr : ((({ c with lfu := l' } : Cache).met fun m => m.applyEvs evs).store.tryRemove k cf) with
-          | mk s' removed =>
-            have := hstore _ hs1
-            rw [htr] at this
-            simp only at this
-            cases removed with
-            | some e' => exact ih _ _ (by simpa using this)
-            | none =>
-              apply ih
-              rw [hs1]; exact he
-      · exact ih c acc he
+    apply ih
+    rw [Cache.sweepOne_get]
+    split
+    · rename_i hh
+      obtain ⟨hjk, hsome⟩ := hh
+      subst hjk
+      obtain ⟨cb, hcb⟩ := Option.isSome_iff_exists.mp hsome
+      obtain ⟨e', he', hdue, _, _⟩ := (Cache.sweepOne_removed_iff c now j cf cb).mp hcb
+      rw [he] at he'
+      have : e = e' := by simpa using he'
+      subst this
+      simp only [Time.isZero, Time.isExpired, Bool.and_eq_true, Bool.not_eq_true',
+        beq_eq_false_iff_ne, ne_eq, decide_eq_true_eq] at hdue
+      rcases hlive with h0 | h1 <;> omega
+    · exact he
 
 -- non-vacuity -------------------------------------------------------------------------------
 example : (Store.get { items := [(7, ⟨0, 42, ⟨1000, 5⟩⟩)], em := [] } 7 0 1004) = some 42 ∧
